@@ -129,6 +129,24 @@ def main():
                 if not (abs(got - want) <= 1e-7 * max(1.0, abs(want))):
                     return dict(reproduced=True, call='parse_expression(%r) at x=%r p=%r t=%r volume=%r' % (s, x.tolist(), p.tolist(), t, vol),
                                 observed=float(got), expected=float(want))
+    # the same text translated for two models that declare the same species in a different order: each term reads ITS model's state entries
+    for rep in range(8):
+        text = rng.choice(['k*X + kq/(1 + prot_2a)', 'X^2*volume + t - prot_2a*k', 'exp(-X/k) + prot_2a'])
+        names = list(S2I)
+        for trial in range(2):
+            perm = names[:]
+            rng.shuffle(perm)
+            s2i = {nm: j for j, nm in enumerate(perm)}
+            term = parse_expression(text, s2i, P2I)
+            x = np.array([rng.uniform(0.2, 4) for _ in names])
+            p = np.array([rng.uniform(0.2, 3) for _ in PARAMS])
+            t, V = rng.uniform(0, 5), rng.uniform(0.3, 3)
+            env = {'X': x[s2i['X']], 'prot_2a': x[s2i['prot_2a']], 'k': p[P2I['k']], 'kq': p[P2I['kq']], 't': t, 'volume': V, 'exp': math.exp}
+            want = eval(text.replace('^', '**'), {'__builtins__': {}}, env)
+            got = term.py_volume_evaluate(x, p, V, t)
+            n += 1
+            if not abs(got - want) <= 1e-9 * max(1.0, abs(want)):
+                return dict(reproduced=True, call='parse_expression(%r, species order %r) (the same text was translated before for another order)' % (text, perm), observed=float(got), expected=float(want))
     # RULE expressions: an assignment rule whose right-hand side mentions t and volume, writing a species or a PARAMETER, through the rule's
     # own entry points (with and without a volume in play): the target gets the value of the written formula
     from bioscrape.types import GeneralAssignmentRule
